@@ -219,6 +219,9 @@ class RunningMeanStd:
 
     def update(self, x: torch.Tensor) -> None:
         """Updates mean, variance, and count using a batch of samples."""
+        if x.dim() == self.mean.dim():
+            x = x.unsqueeze(0)  # a single unbatched observation is one sample
+
         batch_mean = torch.mean(x, dim=0)
         batch_var = torch.var(x, dim=0, unbiased=False)  # Matches NumPy's default
         batch_count = x.shape[0]
